@@ -41,7 +41,7 @@ chk('C15','exploration',
     'The consumer loop is harness code written from the documented contract; true message boundaries come from the harness-side TLV walker on encoder output.',
     'deterministic simulation: seeded byte-stream segmentation/close faults around the real framing helpers, history oracle (exactly-once, ordered)', 'DESIGN.md 3 C15')
 chk('C18','exploration',
-    'Seeded schedule simulation: one shared Specification, 1-8 real caller threads whose interleaving is decided line by line (in 10% of the runs bytecode by bytecode) by the simulator (random switch p in {0.001..0.5}, PCT, round-robin, sequential), up to 50 mixed valid / corrupted / truncated / bit-flipped operations concentrated on a few hot types with fail-then-valid follow-ups, optional MemoryError injected at an arbitrary tick; every outcome compared with the same call alone on a freshly compiled Specification; inputs compared before/after; post-state behaviour digest and sequential re-sweep, amplified (history replayed up to 60 times) whenever the compiled type graph is no longer what it was after compile. Plus exhaustive single-pre-emption sweeps: for two operations on the same type every schedule "A runs k ticks, B runs to its end, A finishes" for every k and both roles.',
+    'Seeded schedule simulation: one shared Specification, 1-8 real caller threads whose interleaving is decided line by line (in 10% of the runs bytecode by bytecode) by the simulator (random switch p in {0.001..0.5}, PCT, round-robin, sequential), up to 50 mixed valid / corrupted / truncated / bit-flipped operations (encode, decode, and for BER/DER decode_with_length / decode_length) concentrated on a few hot types with fail-then-valid follow-ups, optional MemoryError injected at an arbitrary tick; every outcome compared with the same call alone on a freshly compiled Specification; inputs compared before/after; post-state behaviour digest and sequential re-sweep, amplified (history replayed up to 60 times) whenever the compiled type graph is no longer what it was after compile. Plus exhaustive single-pre-emption sweeps: for two operations on the same type every schedule "A runs k ticks, B runs to its end, A finishes" for every k and both roles (a seeded sample of k when k * ticks exceeds 4*10^7).',
     'Pre-emption granularity is one Python source line inside /repo/asn1tools; races inside a line or inside C code are not explored. Operations whose reference run exhausts the step budget are excluded.',
     'deterministic simulation: baton-passing thread scheduler with seeded/explicit schedules, sequential reference model, fault injection (failing ops, allocation failure)', 'DESIGN.md 3 C18')
 chk('C13','exploration',
@@ -49,7 +49,7 @@ chk('C13','exploration',
     'Behavioural equality is decided on a seeded probe set per type (valid values, one corrupted value, one malformed input, decode_length prefixes), not on all values.',
     'deterministic simulation: seeded operation histories over persistent shared state against a fresh-parse reference model, with persist/restore steps', 'DESIGN.md 3 C13')
 chk('C17','exploration',
-    'Seeded histories of compiler processes on one shared cache directory: real compile_files + diskcache + sqlite on a real filesystem under an LD_PRELOAD libc interposer; edits of the sources, option changes (numeric_enums, any_defined_by_choices, encoding, file boundaries), compiles killed at libc call n (KILL / TORN write) or at a Python tick, compiles under ENOSPC/EIO/EDQUOT and short writes, truncate / delete / zero-page / bit-flip damage between processes; every returned specification compared (behaviour digest) with the uncached compile; errors allowed only after damage or under in-flight I/O errors, recovery required after kills and once I/O errors stop. Plus exhaustive sweeps: every libc crash point (KILL and TORN) of the crashing operation of fixed scenarios (one, plus a KILL-only one on a large module, in the quick tier; six in the thorough tier), counted and executed in the directory state each point starts from.',
+    'Seeded histories of compiler processes on one shared cache directory: real compile_files + diskcache + sqlite on a real filesystem under an LD_PRELOAD libc interposer; edits of the sources, option changes (numeric_enums, any_defined_by_choices, encoding, file boundaries), compiles killed at libc call n (KILL / TORN write) or at a Python tick, compiles under ENOSPC/EIO/EDQUOT and short writes, truncate / delete / zero-page / bit-flip damage between processes, and a concurrent editor that rewrites the sources at Python tick n of a running compile (swept over every 12th / every tick of a compile in the quick / thorough tier); every returned specification compared (behaviour digest) with the uncached compile; errors allowed only after damage or under in-flight I/O errors, recovery required after kills and once I/O errors stop. Plus exhaustive sweeps: every libc crash point (KILL and TORN) of the crashing operation of fixed scenarios (one, plus a KILL-only one on a large module, in the quick tier; six in the thorough tier), counted and executed in the directory state each point starts from.',
     'Crash = process kill (completed writes survive); power loss and concurrent writers are not simulated. Compiler children are forks of the driver; in killed children the parse+compile step is replaced by the result the same real code produced in the driver (the cache logic, diskcache and sqlite stay real; every 8th sweep point and 20% of random crash ops run fully real). Un-faulted compiles mostly run in the driver process.',
     'deterministic simulation: seeded crash / I-O-fault / damage histories over real storage behind a libc fault seam, uncached reference model, exhaustive crash-point sweeps', 'DESIGN.md 3 C17')
 m = {
